@@ -519,8 +519,8 @@ class Database:
         of the time step.
         """
         # iterate over the top level H5Groups and copy
-        for time, h5ts in zip(inputDB.genTimeSteps(), inputDB.genTimeStepGroups()):
-            cyc, tn = time
+        for h5ts in inputDB.genTimeStepGroups():
+            cyc, tn = self._getCycleNode(h5ts)
             if (cyc, tn) >= (startCycle, startNode):
                 # all data up to current state are merged (the steps come in chronological order,
                 # so this also stops when the start point itself is not a step of the input)
@@ -612,7 +612,9 @@ class Database:
             if match:
                 cycle = int(match.groups()[0])
                 node = int(match.groups()[1])
-                yield (cycle, node)
+                # a labelled snapshot (e.g. c01n02EOL) is not another time step
+                if groupName == getH5GroupName(cycle, node):
+                    yield (cycle, node)
 
     def genAuxiliaryData(self, ts: Tuple[int, int]) -> Generator[str, None, None]:
         """Returns a generator of names of auxiliary data on the requested time point."""
@@ -1209,6 +1211,10 @@ class Database:
 
         locToComp = {c.spatialLocator.getCompleteIndices(): c for c in comps}
 
+        if timeSteps is None:
+            # the full history: every time step, not the labelled snapshots taken at them
+            timeSteps = list(self.genTimeSteps())
+
         for h5TimeNodeGroup in self.genTimeStepGroups(timeSteps):
             if "layout" not in h5TimeNodeGroup:
                 # layout hasn't been written for this time step, so we can't get anything useful
@@ -1362,6 +1368,10 @@ class Database:
 
         for c in comps:
             compsByTypeThenSerialNum[c.__class__][c.p.serialNum] = c
+
+        if timeSteps is None:
+            # the full history: every time step, not the labelled snapshots taken at them
+            timeSteps = list(self.genTimeSteps())
 
         for h5TimeNodeGroup in self.genTimeStepGroups(timeSteps):
             if "layout" not in h5TimeNodeGroup:
